@@ -164,6 +164,24 @@ def slice_to_position(F, root, n):
     if end.get("k") != "Path" or end.get("res") != "local":
         return None
     base = tir.place(n["base"])
+    # x bound by `Some(x)` matched against B.iter().position(..): an index the iterator produced, hence < len(B)
+    for m in tir.walk(root):
+        init = pat = None
+        if m.get("k") == "Match":
+            for a in m["arms"]:
+                q = a["pat"]
+                if q.get("k") == "TupleStruct" and (q.get("path") or "").endswith("Some") and q["pats"][0].get("k") == "Bind" and q["pats"][0].get("id") == end.get("id") and any(y is n for y in tir.walk(a["body"])):
+                    init = m["scrut"]
+        elif m.get("k") == "If" and m["cond"].get("k") == "LetCond":
+            q = m["cond"]["pat"]
+            if q.get("k") == "TupleStruct" and (q.get("path") or "").endswith("Some") and q["pats"][0].get("k") == "Bind" and q["pats"][0].get("id") == end.get("id") and any(y is n for y in tir.walk(m["then"])):
+                init = m["cond"]["init"]
+        if init is not None:
+            p0 = strip(init)
+            if p0.get("k") == "MethodCall" and p0["method"] == "position" and (declared(p0) or "").endswith("Iterator::position"):
+                it = strip(p0["recv"])
+                if it.get("k") == "MethodCall" and it["method"] == "iter" and tir.place(it["recv"]) == base:
+                    return "end is the index position(..) returned for the same slice"
     for s in tir.walk(root):
         if s.get("k") == "Let" and s["pat"].get("k") == "Bind" and s["pat"].get("id") == end.get("id"):
             i = strip(s["init"])
@@ -245,7 +263,7 @@ def panic_inventory(F, G, rep, entries, invariants_file, M=None, gate_ok=None, r
     ctx = panics.Ctx(F, G)
     R = G.reachable(entries)
     rep.counts[rule + ".reachable_fns"] = len(R)
-    inv = load_invariants(invariants_file)
+    inv = invariants_file if isinstance(invariants_file, dict) else load_invariants(invariants_file)
     used_inv = set()
     sidx = span_index(F, R)
     by_class = {"R": 0, "G": 0, "I": 0, "open": 0}
@@ -401,6 +419,65 @@ SIDE_CHECKS = {"payloads_game_end": chk_payloads_game_end, "dup_end_guard": chk_
 
 # ------------------------------------------------------------------------------------------------ S: recursion
 
+def upper_bounded_at(F, n, par, pname):
+    """the node n is only reached when `pname < CONST` (or <=): an enclosing branch taken under that comparison, or an earlier
+    guard clause of an enclosing block that leaves the function when it fails"""
+    def bound_of(cond, holds):
+        """cond is known to be `holds` here: does that give pname an upper bound?"""
+        c0 = strip(cond)
+        while c0.get("k") == "Unary" and c0.get("op") == "Not":
+            c0, holds = strip(c0["e"]), not holds
+        if c0.get("k") == "Binary" and c0.get("op") == "And" and holds:
+            return bound_of(c0["l"], True) or bound_of(c0["r"], True)
+        if c0.get("k") == "Binary" and c0.get("op") == "Or" and not holds:
+            return bound_of(c0["l"], False) or bound_of(c0["r"], False)
+        if c0.get("k") != "Binary" or c0.get("op") not in ("Lt", "Le", "Gt", "Ge"):
+            return False
+        op = c0["op"]
+        if not holds:
+            op = {"Lt": "Ge", "Le": "Gt", "Gt": "Le", "Ge": "Lt"}[op]
+        l, r = c0["l"], c0["r"]
+        if op in ("Lt", "Le") and tir.place(l) == pname:
+            other = r
+        elif op in ("Gt", "Ge") and tir.place(r) == pname:
+            other = l
+        else:
+            return False
+        try:
+            return isinstance(order.Evaluator(F).eval(other, {}), int)
+        except L.Unsupported:
+            return False
+
+    def leaves(e):
+        e = L.strip_try(e)
+        if e.get("k") == "Block":
+            last = e.get("tail") or (e["stmts"][-1].get("e") if e.get("stmts") and e["stmts"][-1].get("k") == "Expr" else None)
+            return leaves(last) if last is not None else False
+        if e.get("k") == "Ret":
+            return True
+        return e.get("k") == "Call" and (declared(e) or "").startswith("core::panicking")
+    x = n
+    while id(x) in par:
+        child, x = x, par[id(x)]
+        bb = tir.bool_branch(x) if x.get("k") in ("If", "Match") else None
+        if bb is not None:
+            in_true = any(y is child for y in tir.walk(bb[1]))
+            in_false = bb[2] is not None and any(y is child for y in tir.walk(bb[2]))
+            if in_true and bound_of(bb[0], True):
+                return True
+            if in_false and bound_of(bb[0], False):
+                return True
+        if x.get("k") == "Block":
+            stmts = x.get("stmts", [])
+            idx = next((i for i, s in enumerate(stmts) if any(y is child for y in tir.walk(s))), len(stmts))
+            for s in stmts[:idx]:
+                e = s.get("e") if s.get("k") == "Expr" else None
+                if isinstance(e, dict) and strip(e).get("k") == "If" and strip(e)["cond"].get("k") != "LetCond" and not strip(e).get("else") and leaves(strip(e)["then"]):
+                    if bound_of(strip(e)["cond"], False):
+                        return True
+    return False
+
+
 def stack_rule(F, G, rep, R, rule="S"):
     cycles = G.cycles(R)
     rep.counts[rule + ".cycles"] = len(cycles)
@@ -424,20 +501,8 @@ def stack_rule(F, G, rep, R, rule="S"):
                             a = strip(a)
                             if a.get("k") == "Binary" and a.get("op") == "Add" and tir.place(a["l"]) in params and (tir.lit_int(a["r"]) or 0) > 0:
                                 pname = tir.place(a["l"])
-                                # enclosing condition `pname < CONST`
-                                x = n
-                                while id(x) in par:
-                                    x = par[id(x)]
-                                    cond = x.get("cond") if x.get("k") == "If" else (x.get("scrut") if x.get("k") == "Match" else None)
-                                    if cond is not None:
-                                        c0 = strip(cond)
-                                        if c0.get("k") == "Binary" and c0.get("op") in ("Lt", "Le") and tir.place(c0["l"]) == pname:
-                                            try:
-                                                bound = order.Evaluator(F).eval(c0["r"], {})
-                                            except L.Unsupported:
-                                                bound = None
-                                            if isinstance(bound, int):
-                                                bounded_edges.add((fn, c))
+                                if upper_bounded_at(F, n, par, pname):
+                                    bounded_edges.add((fn, c))
         # the component minus its bounded edges must be acyclic
         rest = {}
         for a, bb in edges:
